@@ -47,7 +47,7 @@ func c18Gen(c *Ctx) *c18Scenario {
 		m := c19Msg{Batch: sc.Batch, Name: []string{"m", "cpu load", "é", "a,b"}[g.Intn(4)], TimeNs: t, Tags: map[string]string{}}
 		nt := g.Intn(4)
 		for k := 0; k < nt; k++ {
-			v := []string{"a", "héllo wörld", "c,d", "e=f", "g h"}[g.Intn(5)]
+			v := []string{"a", "héllo wörld", "c,d", "e=f", "g h", "x\\ny", "trail\\n"}[g.Intn(7)]
 			m.Tags[[]string{"host", "dc", "a,b", "x=y"}[g.Intn(4)]] = v
 		}
 		if sc.Batch {
@@ -99,7 +99,7 @@ func c18Fields(c *Ctx, feat map[string]bool, allowInt, allowNewline bool) map[st
 		case 2:
 			f[k] = []float64{0, 1.5, -2.25, 1e300, 3}[g.Intn(5)]
 		case 3:
-			s := []string{"", "a", "héllo wörld", "quote\"s and ,commas= spaces", "back\\slash", "☃\U0001F600"}[g.Intn(6)]
+			s := []string{"", "a", "héllo wörld", "quote\"s and ,commas= spaces", "back\\slash", "☃\U0001F600", "C:\\new\\table", "^\\d+\\n$", "tab\there \\t \\\\n"}[g.Intn(9)]
 			if allowNewline && g.Chance(1, 3) {
 				s = "line\nbreak"
 				feat["newline_in_string"] = true
@@ -336,6 +336,18 @@ func runC18(c *Ctx) Verdict {
 			if sc.Batch {
 				n-- // tmax is adjusted to the last point's time by the replay; compared separately
 			}
+			if sc.Batch && sc.RecTime && n >= 1 {
+				// recorded-time replay: the batch time is the recorded one (moved up to the last point's time if it lay before it)
+				wt := wantTimes[i][n]
+				if lp := wantTimes[i][n-1]; lp > wt {
+					wt = lp
+				}
+				if times[i][n] != wt {
+					v := Fail("replay/time", "recorded-time replay changed the time of batch #%d by %v (points keep their recorded times)", i, time.Duration(times[i][n]-wt))
+					v.Shape = shape
+					return v
+				}
+			}
 			for j := 0; j < n; j++ {
 				d := times[i][j] - wantTimes[i][j]
 				if sc.RecTime && d != 0 {
@@ -389,6 +401,6 @@ func init() {
 			"non-trivial = every case; distinct = distinct (scenario, interleaving signature) pairs",
 		Real:        []string{"replay.go (Write*ForRecording, Replay*FromIO, readPointsFromIO/readBatchFromIO, replay*FromChan)", "edge message codecs (point line protocol, bufferedBatchMessage JSON)", "kapacitor/clock (fast, wall, set clock on the virtual time)"},
 		Stub:        []string{"SimPipe as the recording's io.ReadCloser", "recording collectors", "services/replay (files on disk, HTTP API) is not run"},
-		Assumptions: []string{"empty batches are not generated (readBatchFromIO documents that it skips them)", "batch tmax is not compared (the replay moves it to the last point's time by design)", "a stream point replays without group/dimensions (assigned later by from())"},
+		Assumptions: []string{"empty batches are not generated (readBatchFromIO documents that it skips them)", "batch tmax is compared in recorded-time replays only (otherwise the replay leaves it unshifted unless it lies before the last point, by design)", "a stream point replays without group/dimensions (assigned later by from())"},
 	})
 }
